@@ -20,9 +20,15 @@ def _graph_cases(tier):
     else:
         specs = list(A.graph_specs(3)) + [g for g in A.graph_specs(4, payloads=("P1", "P2", "P3"), wrappers=("plain", "list", "dict"))
                                           if A.graph_size(g) == 4]
+    # 4-node trees over payloads that bring their own imports (List / Dict values): import collection across nesting levels
+    specs += [g for g in A.graph_specs(4, payloads=("P1", "P3l", "P4d"), wrappers=("plain", "list")) if A.graph_size(g) == 4]
     for spec in specs:
         for merge in ("default", "exact"):
             yield {"in": ["G", spec], "merge": merge, "opts": "std"}
+    # sibling family: same key at two places -> equal generated names that are not adjacent in the registry
+    for spec in A.sibling_graph_specs(child_payloads=("P3", "P3f", "P4", "P1") if tier == "quick" else ("P3", "P3f", "P3s", "P4", "P1", "P3l")):
+        for merge in ("default", "exact"):
+            yield {"in": ["G", spec], "merge": merge, "opts": "sib"}
     for spec in A.graph_specs(2):
         for merge in ("default",):
             yield {"in": ["G", spec], "merge": merge, "opts": "all"}
@@ -82,6 +88,10 @@ def _configs(case, tree):
     o = case["opts"]
     if o == "std":
         for fw in FWS:
+            for l in lay:
+                yield fw, l, {}
+    elif o == "sib":
+        for fw in ("pydantic", "dataclasses"):
             for l in lay:
                 yield fw, l, {}
     elif o == "all":
